@@ -21,6 +21,7 @@ func init() {
 					Type: "integer",
 					Text: "The value less than _radix_.",
 				},
+				{Name: "&optional"},
 				{
 					Name: "radix",
 					Type: "integer",
